@@ -1,35 +1,112 @@
 """Texts for MANIFEST.json."""
-SOURCE_COMMITS = []  # no hook commits: the overlay is a copy; "fix:" commits are listed in known_findings.json
-NOTES = ("All checks are bounded model checking with Kani/CBMC of the real fastrace source compiled in a scratch overlay "
-         "regenerated from /repo's working tree on every run; exit 2 = inconclusive (never a pass, never a violation).")
+SOURCE_COMMITS = []  # no hook commits: the overlay is a copy of /repo; "fix:" commits are listed in known_findings.json
+NOTES = ("All checks are bounded model checking with Kani 0.68 / CBMC 6.11 of the real fastrace source, compiled in a scratch overlay that is "
+         "regenerated from /repo's working tree on every run (no hooks in /repo). exit 0 = every harness held; exit 1 = a counterexample was found "
+         "and reproduced natively (dev and/or release profile) on the real code; exit 2 = inconclusive (timeout, out of memory, overlay does not "
+         "compile, vacuous harness, counterexample that does not reproduce) — never reported as a pass. Nothing downstream of Receiver::try_recv "
+         "(the collector) is decided by any check; see DESIGN.md §4 and each evidence file's not_covered list.")
 
-_PENDING = "harnesses for this property are not built yet (work in progress); see DESIGN.md §5"
 NOT_APPLICABLE = {
-    "C03": "entirely about which report() call records arrive in across collector cycles; handle_commands is beyond the bounded model checker's reach (DESIGN.md §1, §6)",
-    "C08": "collector state after cycles (HashMap-based handle_commands): beyond the bounded model checker's reach (DESIGN.md §1, §6)",
+    "C03": "entirely about which report() call records arrive in across collector cycles and across per-thread queues; handle_commands (HashMap-based, "
+           "drain/retain loops) is beyond the bounded model checker's reach: one cycle over empty queues gave no verdict in 10 min, with 1-3 commands "
+           "none in 15-25 min at 8-24 GB (DESIGN.md §1, §6). The adapter-ordering defect the property mentions is decided under C13/C14.",
+    "C08": "collector state after cycles (active_collectors / SPSC_RXS in handle_commands): same code, same measurements as C03 (DESIGN.md §6). "
+           "The one link in reach (a receiver is reported closed only when its producer is gone and its ring is empty) is decided under C01.",
+    "C19": "the wire bytes are produced by thrift_codec / rmp-serde / the OpenTelemetry SDK behind trait objects (out of reach), and the three convert() "
+           "functions build Strings and Vecs per record through iterator chains that exceeded the memory cap in calibration (DESIGN.md §5 C19); "
+           "datadog and opentelemetry additionally need reqwest / the OTel SDK to be compiled to goto programs.",
 }
-for _p in ["C05", "C06", "C07", "C10", "C11", "C12", "C13", "C14", "C15", "C16", "C17", "C18", "C19", "C20"]:
-    NOT_APPLICABLE[_p] = _PENDING
 
-_QNOTE = ("Decides only the queue link (util/spsc.rs) and, where listed, the sender link (which commands an API call pushes). "
-          "NOT decided: anything the collector does with a received command (handle_commands, reporting, timing, flush()). "
-          "Interleaving granularity: whole try_recv calls between producer pushes, and arbitrary ring-level producer behaviour between the two ring "
-          "accesses of try_recv; the ring itself (rtrb) is a trusted linearizable model; histories longer than one operation follow by an induction argument on paper.")
+_COLL = ("NOT decided: anything the collector does with a received command (handle_commands, amend/mount, reporting, report interval, flush()). ")
+_TB = ("Trusted: Kani/CBMC translation and solver; environment models (thread_local -> 3-slot array, rtrb -> linearizable <=8-slot ring with yield hook, "
+       "fastant -> non-decreasing clock, rand -> kani::any, parking_lot::Mutex -> flag); the on-paper composition lemmas named in the evidence.")
+_QNOTE = ("Decides the queue link (util/spsc.rs, T=u8) and the sender link (which commands an API call pushes, in which order, kept or not on a full ring). "
+          + _COLL +
+          "Interleaving granularity: whole try_recv calls between producer pushes; arbitrary ring-level producer behaviour between try_recv's two ring "
+          "accesses. Histories longer than one operation follow by induction on the acceptance-order invariant (on paper). " + _TB)
+
 CLAIMS = {
     "C01": dict(
-        text="Bounded model checking of the real Sender/Receiver code at T=u8: from every valid channel state one send / force_send / thread exit / try_recv "
-             "neither loses, duplicates nor reorders an accepted command, also when the producer pushes and exits between try_recv's pop and is_abandoned.",
-        note=_QNOTE),
-    "C04": dict(
-        text="Bounded model checking: force-sent DropCollect/CommitCollect stay in order and are never dropped on a full ring (one-step induction on the queue), "
-             "also across thread exit; cancel() pushes DropCollect only for roots (sender link).",
-        note=_QNOTE),
-    "C09": dict(
-        text="Bounded model checking: a send on a full ring drops only itself; force-sent signals are neither dropped nor reordered; local span limits skip only the excess spans.",
+        text="From every valid channel state (capacity 1-2, any occupancy, 0-2 parked commands) one send / force_send / thread exit neither loses, duplicates "
+             "nor reorders an accepted command with the consumer interleaved at every push; try_recv against the most general producer reports Closed only "
+             "when nothing is left and returns the oldest command; finishing a root pushes exactly [SubmitSpans(span, own token), CommitCollect] (commit kept "
+             "on a full ring), a child exactly one submit, a closed local-parent scope exactly one local span set.",
         note=_QNOTE),
     "C02": dict(
-        text="For every generator state the next two span ids are prefix<<32|counter+1,+2 (distinct, non-zero unless prefix=0 and the counter wraps); "
-             "parent linking at recording time decided on SpanQueue/SpanLine/issue_collect_token for all id values within small shapes.",
-        note="Bounded: one step from an arbitrary state (induction over calls is on paper). Collector-side amend/fan-out is NOT decided. "
-             "Trusted: Kani/CBMC translation, thread_local model, model clock."),
+        text="For every id-generator state the next ids are prefix<<32|counter+1,+2 (distinct, non-zero unless prefix=0 and the counter wraps); local spans "
+             "get the innermost open local span as parent and finish restores it (fixed 5-span tree and one step from an arbitrary queue state, all id "
+             "values); issued tokens point at the issuing span; current_collect_token substitutes the innermost local span for every token item.",
+        note="Recording-time linking only. " + _COLL + "Distinctness across threads rests on the random 32-bit prefix (probabilistic, not claimed). " + _TB),
+    "C04": dict(
+        text="cancel() pushes exactly one DropCollect for a root and nothing for a child or no-op; DropCollect and CommitCollect are parked on a full ring "
+             "and are received in order (one-step induction on the queue incl. thread exit with the consumer interleaved).",
+        note=_QNOTE + " That the collector discards a dropped trace, spares traces sharing a span, and ignores cancel() in the default configuration is collector behaviour: not decided."),
+    "C05": dict(
+        text="An unsampled root sends nothing at creation and gets the not-sampled collect id; submit_spans drops unsampled token items and sends nothing if "
+             "none remain (1-2 item tokens, all flag combinations); an unsampled scope records nothing and never calls a property closure; contexts carry the flag.",
+        note="Sender side only. " + _COLL + "The CommitCollect(usize::MAX) an unsampled root force-sends must be ignored by the collector: not decided. " + _TB),
+    "C06": dict(
+        text="SpanQueue records events/properties as pseudo-spans under the innermost open span in attachment order with payload untouched; "
+             "Span::add_event/add_properties hand over one pseudo-span of the right kind addressed to the target span; with_properties appends in order.",
+        note="Recording side only; strings are opaque literals compared by pointer+length. " + _COLL +
+             "Span::add_event/add_properties are decided with a contract stub for Span::enter_with_parent (the real function is decided separately). " + _TB),
+    "C07": dict(
+        text="Default Kani checks (panics, unwrap, index bounds, overflow, RefCell double borrow, unwinding assertions) hold on: no-op/unsampled spans, "
+             "no local parent, empty-token local parent, re-entrant property closure (add_properties), full span stack, thread-local teardown, full ring.",
+        note="Only the listed paths (1-3 calls each). Not decided: calls while the collector thread runs, flush(), reporter callbacks, "
+             "LocalSpan::with_properties re-entrancy (out of memory at 30 GB), stack overflow, allocation failure. " + _TB),
+    "C09": dict(
+        text="A send on a full ring returns Err and changes nothing else; force-sent signals are parked, never dropped or reordered while the thread lives "
+             "(one-step induction); SpanQueue at capacity skips the excess and keeps parents; a refused scope changes nothing and its guard is harmless.",
+        note=_QNOTE + " Capacities are 1-3 (ring), 1-2 (SpanQueue), 0-1 (span stack): the code only compares lengths with the stored capacity."),
+    "C10": dict(
+        text="finish_span restores the finished span's parent from an arbitrary queue state; register/unregister of an inner scope restores the outer "
+             "context (depth, epoch, next parent) exactly; stale handles and foreign epochs change nothing; with no scope every local operation is inert; "
+             "set_local_parent/guard drop open and close exactly one scope.",
+        note="Depth <= 2 scopes, <= 1 span per scope per harness; deeper nesting by stack-top-locality (on paper). !Send of guards is a compiler fact. " + _TB),
+    "C11": dict(
+        text="from_span returns (first token item's trace id, the span's own id, its flag) for 1-2 item tokens and None for no-op/empty-token spans; "
+             "current_local_parent returns the scope's first item with the innermost local parent, None without a scope or with an empty token; "
+             "Span::root copies trace id / parent id / flag from the context.",
+        note="Extraction functions only; the remote child's delivered record is collector behaviour. " + _COLL + _TB),
+    "C12": dict(
+        text="encode_w3c_traceparent for all 2^193 contexts: 55 bytes, fixed separators, every hex digit correct and lowercase, flags 00/01; "
+             "decode never panics and equals a 25-line reference parser on every ASCII string of <=4 bytes and on 00-H-H-HH / 00-HH-HH-HH field shapes; "
+             "Display of both id types is fixed-width lowercase hex for all values; FromStr equals the radix-16 grammar on strings of <=3 bytes.",
+        note="Decode is bounded to short inputs; uniform behaviour of str::split / from_str_radix on longer fields is std's contract; serde not covered. "
+             "Stubs: alloc::fmt::format (String+write_fmt), core::slice::memchr::memchr (naive loop), identical results. " + _TB),
+    "C13": dict(
+        text="InSpan::poll: during a poll the span is the thread's local parent, afterwards the context is restored and exactly that poll's local span set is "
+             "handed over; on completion of a root the local spans precede the commit; a dropped adapter finishes the span once; no-op spans and "
+             "enter_on_poll without a parent do nothing.",
+        note="<= 2 polls per harness, one adapter, spans built directly. " + _COLL + _TB),
+    "C14": dict(
+        text="Stream::poll_next and Sink::{poll_ready,start_send,poll_flush,poll_close} scope the span and restore the context; the span finishes exactly "
+             "at end of stream / completed close, with that call's local spans handed over before a root's commit; no-op spans do nothing.",
+        note="One call per harness on hand-written Stream/Sink probes. " + _COLL + _TB),
+    "C15": dict(
+        text="For a corpus of annotated functions (early return; `?` with &mut log and name=; generic method with lifetime and short_name; properties; async; "
+             "async+enter_on_poll) and hand-written twins: equal return value / Poll sequence / side-effect log for all argument values, and nothing "
+             "recorded without a local parent.",
+        note="The proc-macro itself is not executed by the engine: only its expansions on the corpus, as compiled. Functions outside the corpus are not covered. "
+             "NOT decided: the span recorded under a local parent (name, properties, parent): a traced call on the thread's span stack ran out of memory at 30 GB. " + _TB),
+    "C16": dict(
+        text="Built without `enable`: every public entry point returns the no-op value, no property closure runs, no context exists, no command ring is "
+             "created. With `enable`: roots before a reporter, children of no-ops, unsampled scopes and operations without a scope hand nothing over "
+             "and never call a property closure.",
+        note="'no thread' is not modelled (set_reporter / flush are never executed). " + _TB),
+    "C17": dict(
+        text="push_child_spans hands over one SharedLocalSpans per parent with the same Arc, under that parent's issued token; an empty set pushes nothing; "
+             "a collector scope hands its spans back only to its own handle.",
+        note="Sender side only; that N parents receive field-identical subtrees and to_span_records equality are collector/amend behaviour: not decided. " + _COLL + _TB),
+    "C18": dict(
+        text="Recorded instants are exactly the clock readings at start/finish, so children lie within parents, siblings do not overlap and events lie "
+             "within the open span (all clock steps 0..255 per reading); Span::drop stamps the end instant; elapsed() = now - begin (< 2^31 ns), None for no-op.",
+        note="Model clock; the anchor conversion to unix nanoseconds, the float cycle scaling and the wall-clock window are not decided. " + _COLL + _TB),
+    "C20": dict(
+        text="The real try_report loop, for every vector of per-span encoded sizes in 1..=9000 (2-3 spans, 4 in the thorough tier): every datagram < 8000 "
+             "bytes, every span that fits alone is sent exactly once in order, oversize spans are skipped without affecting neighbours, the loop terminates "
+             "(unwinding assertion).",
+        note="convert / serialize / UdpSocket::send_to are oracle stubs; assumption: the real encoder's length is additive in the spans. "
+             "Counterexamples of this harness cannot be replayed natively (the oracles are Kani stubs); they are confirmed by a second CBMC run with a trace. " + _TB),
 }
